@@ -32,6 +32,16 @@ def len(l: List[i64], acc: i64): i64 { l.case[i64] { Nil => acc, Cons(x, xs) => 
 def loop(n: i64, acc: i64): i64 { if n <= 0 { acc } else { let l: List[i64] = build(9, Nil); let p: Pair[List[i64], List[i64]] = Tup(l, l); let r: i64 = p.case[List[i64], List[i64]] { Tup(a, b) => len(a, 0) + len(b, 0) }; loop(n - 1, acc + r) } }
 def main(n: i64): i64 { println_i64(loop(n, 0)); 0 }
 """,
+    "balanced": """data List[A] { Nil, Cons(x: A, xs: List[A]) }
+def build(n: i64, acc: List[i64]): List[i64] { if n <= 0 { acc } else { build(n - 1, Cons(n, acc)) } }
+def hd(l: List[i64]): i64 { l.case[i64] { Nil => 0, Cons(h, t) => h } }
+def add(a: i64, b: i64): i64 { a + b }
+def two(a: List[i64], b: List[i64]): i64 { hd(a) + hd(b) }
+def step(l: List[i64], i: i64): i64 { add(i, i) }
+def replace(old: List[i64], l: List[i64]): i64 { two(l, l) }
+def loop(n: i64, acc: i64): i64 { if n <= 0 { acc } else { let a: i64 = step(build(10, Nil), n); let b: i64 = replace(build(7, Nil), build(3, Nil)); loop(n - 1, (acc + a) + b) } }
+def main(n: i64): i64 { println_i64(loop(n, 0)); 0 }
+""",
     "wide": """data Rec { Mk(a: i64, b: i64, c: i64, d: i64, e: i64, f: i64), No }
 def loop(n: i64, acc: i64, p1: i64, p2: i64, p3: i64, p4: i64, p5: i64, p6: i64, p7: i64): i64 { if n <= 0 { acc + p7 } else { let o: Rec = Mk(n, p1, p2, p3, p4, p5); let r: i64 = o.case { Mk(a, b, c, d, e, f) => (((a + b) + (c + d)) + (e + f)) + (p6 + p7), No => 0 }; loop(n - 1, acc + r, p1, p2, p3, p4, p5, p6, p7) } }
 def main(n: i64): i64 { println_i64(loop(n, 0, 1, 2, 3, 4, 5, 6, 7)); 0 }
